@@ -52,7 +52,8 @@ def cToDecimal : Code := 511812798266980789351460 -- "$toDecimal"
 /-- every syntactic position that accepts an operator name -/
 inductive Position
   | queryField        -- `find({path: {NAME: x}})`, the path has at least one candidate value
-  | queryFieldDeadEnd -- the same, the path dead-ends in a scalar: no candidate value
+  | queryFieldDeadEnd -- the same, the path reaches nothing (a field name over an array of
+                      -- scalars, an index past the end): no candidate value
   | queryTop          -- `find({NAME: x})`
   | queryNot          -- `find({path: {$not: {NAME: x}}})`
   | queryElemMatch    -- `find({path: {$elemMatch: {NAME: x}}})`
@@ -189,14 +190,15 @@ def classify (T : Tables Code) (k : Code) : NameClass :=
 
 /-! ## the dispatch of each position -/
 
-/-- `_Filterer.apply`, the key of the filter itself (filtering.py:82-101):
-    `$comment` skipped by design; `key in LOGICAL_OPERATOR_MAP` evaluated — but a connective whose
-    value is always truthy (`$not`: the lambda returns a generator object) never rejects a
-    document, i.e. it is ignored; `$expr`; `_TOP_LEVEL_OPERATORS` → NotImplementedError; any other
-    `$name` → OperationFailure('unknown top level operator'). -/
+/-- `_Filterer.apply`, the key of the filter itself (filtering.py:82-102):
+    `$comment` skipped by design; `key in LOGICAL_OPERATOR_MAP and key != '$not'` evaluated — a
+    connective whose value is always truthy (as the lambda of `$not`, which returns a generator
+    object) would never reject a document, i.e. be ignored; `$not` itself is not taken here;
+    `$expr`; `_TOP_LEVEL_OPERATORS` → NotImplementedError; any other `$name`, `$not` included →
+    OperationFailure('unknown top level operator'). -/
 def topDispatch (c : NameClass) : Disposition :=
   if c.comment then .implemented
-  else if c.logical then (if c.logicalConst then .ignored else .implemented)
+  else if c.logical && !c.not_ then (if c.logicalConst then .ignored else .implemented)
   else if c.expr then .implemented
   else if c.topNI then .raisesNotImplemented
   else if c.op then .raisesOther
@@ -211,7 +213,7 @@ def fieldDispatch (c : NameClass) : Disposition :=
   else if c.fieldNI then .raisesNotImplemented
   else .raisesOther
 
-/-- the same condition when the path yields NO candidate value (it dead-ends in a scalar): the
+/-- the same condition when the path yields NO candidate value (it reaches nothing): the
     candidate loop is not entered, nothing is validated.  `$all` is evaluated before the loop,
     `{$exists: false}` is special-cased; `$ne`/`$nin` alone make the document match, every other
     operator makes it not match — whatever the name and the operand. -/
